@@ -34,8 +34,7 @@ Proof.
 Qed.
 Lemma ret_bool_safe P v : safe (ret_bool P v).
 Proof. unfold ret_bool. destruct (is_bool v); [conc|]. destruct P; conc. Qed.
-Lemma a2b_safe b : safe (of_out (a2b_go false 0 0 0 [] b)).
-Proof. apply of_out_safe. apply a2b_go_total. Qed.
+
 
 Section DictProofs.
   Variable P : dproto.
@@ -53,7 +52,7 @@ Section DictProofs.
       | match goal with H : tryS _ (match ?u with _ => _ end) = Ret _ |- _ =>
           destruct u; vm_compute in H; first [discriminate H | inversion H; subst; clear H] end
       | apply safe_vfault
-      | apply read_int_safe | apply read_bytes_safe | apply a2b_safe | apply ret_number_safe
+      | apply read_int_safe | apply read_bytes_safe | apply from_urlsafe_bytes_safe | apply from_hex_safe | apply ret_number_safe
       | apply ret_bool_safe | apply msgpack_integer_safe | apply read_leaf_safe_inbase
       | match goal with |- safe (if ?c then _ else _) => destruct c end
       | match goal with |- safe (match ?x with _ => _ end) => is_var x; destruct x end
